@@ -491,3 +491,151 @@ Theorem save_closed T s : tables_ok T -> Inv T s ->
 Proof.
   intros HT HI. split; [reflexivity|]. split; [reflexivity|]. apply save_closed_aux; auto.
 Qed.
+
+(* ------------------------------------------------------------------------------ *)
+(** * The decidable forms are sound *)
+
+Lemma memn_In n l : memn n l = true <-> In n l.
+Proof.
+  unfold memn. rewrite existsb_exists. split.
+  - intros (x & Hx & E). apply Nat.eqb_eq in E. subst. auto.
+  - intros H. exists n. split; auto. apply Nat.eqb_refl.
+Qed.
+
+Lemma nodupn_NoDup l : nodupn l = true -> NoDup l.
+Proof.
+  induction l as [|a l IH]; simpl; [constructor|]. intros H. apply andb_true_iff in H as [H1 H2].
+  constructor; auto. intros Hin. apply memn_In in Hin. rewrite Hin in H1. discriminate.
+Qed.
+
+Lemma resolve_all_F2 rs rids tg : resolve_all rs rids = Some tg ->
+  Forall2 (fun rid q => related_part rid rs = Ok q) rids tg.
+Proof.
+  revert tg. induction rids as [|r l IH]; simpl; intros tg H.
+  - inversion H. constructor.
+  - destruct (related_part r rs) as [q|] eqn:E; [|discriminate].
+    destruct (resolve_all rs l) as [t|]; [|discriminate]. inversion H; subst. constructor; auto.
+Qed.
+
+Lemma names_from_spec parts tg : forall i, names_from parts i tg = true ->
+  forall j q, nth_error tg j = Some q -> name_of parts q = Ids.slide_name (i + N.of_nat j)%N.
+Proof.
+  induction tg as [|a t IH]; intros i H j q Hj; [destruct j; discriminate|].
+  simpl in H. apply andb_true_iff in H as [H1 H2]. destruct j as [|j]; simpl in Hj.
+  - inversion Hj; subst. apply str_eqb_eq in H1. rewrite H1. f_equal. lia.
+  - rewrite (IH _ H2 j q Hj). f_equal. lia.
+Qed.
+
+Lemma good_partb_sound n x : good_partb n x = true -> good_part n x.
+Proof.
+  unfold good_partb. intros H.
+  apply andb_true_iff in H as [H H10]. apply andb_true_iff in H as [H H9].
+  apply andb_true_iff in H as [H H8]. apply andb_true_iff in H as [H H7].
+  apply andb_true_iff in H as [H H6]. apply andb_true_iff in H as [H H5].
+  apply andb_true_iff in H as [H H4]. apply andb_true_iff in H as [H H3].
+  apply andb_true_iff in H as [H1 H2].
+  constructor.
+  - apply Opc_proofs.part_nameb_sound. exact H1.
+  - apply str_eqb_eq. exact H2.
+  - intros q Hq. rewrite forallb_forall in H3. apply Nat.ltb_lt. apply H3. exact Hq.
+  - apply Opc_proofs.nodupb_NoDup. exact H4.
+  - intros r Hr. rewrite forallb_forall in H5. specialize (H5 r Hr). destruct (rr_ref r); [discriminate|reflexivity].
+  - intros kr Hkr. rewrite forallb_forall in H6. apply mem_str_In. apply H6. exact Hkr.
+  - intros k r x' Hin Hk Hf. rewrite forallb_forall in H7. specialize (H7 (k, r) Hin). cbn [fst snd] in H7.
+    apply orb_true_iff in H7 as [H7|H7].
+    + apply str_eqb_eq in H7. contradiction.
+    + rewrite Hf in H7. apply negb_true_iff in H7. intros Hc. apply mem_str_In in Hc. congruence.
+  - intros r Hr. rewrite forallb_forall in H8. specialize (H8 r Hr).
+    destruct (find_rel r (pt_rels x)) as [x'|]; [|discriminate]. exists x'. split; auto. apply mem_str_In. exact H8.
+  - intros Hc. apply orb_true_iff in H9 as [H9|H9].
+    + apply negb_true_iff, orb_false_iff in H9 as [Ha Hb].
+      destruct Hc as [Hc|Hc]; rewrite Hc, str_eqb_refl in *; discriminate.
+    + destruct (pt_idl x); [reflexivity|discriminate].
+  - intros Hc. apply orb_true_iff in H10 as [H10|H10].
+    + rewrite Hc, str_eqb_refl in H10. discriminate.
+    + apply andb_true_iff in H10 as [Ha Hb]. split; [apply Opc_proofs.nodupb_NoDup; exact Ha|].
+      intros kr Hkr Hin. rewrite forallb_forall in Hb. specialize (Hb kr Hkr).
+      apply negb_true_iff in Hb. apply mem_str_In in Hin. congruence.
+Qed.
+
+Lemma reach_iter_parts s p x : reach_part s p x -> In x (iter_parts s).
+Proof.
+  intros [Hp Hx]. unfold iter_parts. apply in_flat_map. exists p. split; auto. rewrite Hx. simpl; auto.
+Qed.
+
+Lemma has_type_ne t rs : has_type t rs = true -> filter (fun r => str_eqb (rr_type r) t) rs <> [].
+Proof. unfold has_type. destruct (filter _ rs); [discriminate|discriminate]. Qed.
+
+Theorem invb_sound T s : invb T s = true -> Inv T s.
+Proof.
+  unfold invb. intros H.
+  apply andb_true_iff in H as [H H11]. apply andb_true_iff in H as [H H10].
+  apply andb_true_iff in H as [H H9]. apply andb_true_iff in H as [H H8].
+  apply andb_true_iff in H as [H H7]. apply andb_true_iff in H as [H H6].
+  apply andb_true_iff in H as [H H5]. apply andb_true_iff in H as [H H4].
+  apply andb_true_iff in H as [H H3]. apply andb_true_iff in H as [H1 H2].
+  constructor.
+  - intros p x Hx. apply good_partb_sound. rewrite forallb_forall in H1. apply H1.
+    unfold getp in Hx. eapply nth_error_In; eauto.
+  - intros q Hq. rewrite forallb_forall in H2. apply Nat.ltb_lt. auto.
+  - apply Opc_proofs.nodupb_NoDup. exact H3.
+  - intros r Hr. rewrite forallb_forall in H4. specialize (H4 r Hr). destruct (rr_ref r); [discriminate|reflexivity].
+  - apply Opc_proofs.nodupb_NoDup. exact H5.
+  - destruct (filter (fun r => str_eqb (rr_type r) rt_office_document) (st_prels s)) as [|r [|]]; try discriminate.
+    exists r. split; auto. destruct (rr_tgt r); [|discriminate]. apply Nat.eqb_eq in H6. subst. reflexivity.
+  - destruct (getp s (st_pres s)) as [pp|]; [|discriminate]. exists pp. split; auto.
+    intros Hc. apply mem_str_In in Hc. rewrite Hc in H7. discriminate.
+  - intros p q x y Hx Hy He Hix Hiy. unfold clashb in H8. rewrite forallb_forall in H8.
+    specialize (H8 x (reach_iter_parts s p x Hx)). rewrite forallb_forall in H8.
+    specialize (H8 y (reach_iter_parts s q y Hy)). unfold intabb in H8.
+    rewrite He, str_eqb_refl in H8. rewrite <- He in H8 at 1. rewrite Hix, Hiy in H8. simpl in H8.
+    apply str_eqb_eq. exact H8.
+  - unfold slidesb in H9. destruct (getp s (st_pres s)) as [pp|] eqn:Epp; [|discriminate].
+    destruct (resolve_all (pt_rels pp) (pt_idl pp)) as [tg|] eqn:Etg; [|discriminate].
+    apply andb_true_iff in H9 as [H9 Hd]. apply andb_true_iff in H9 as [H9 Hc].
+    apply andb_true_iff in H9 as [Ha Hb].
+    exists pp, tg. split; auto. split; [apply resolve_all_F2; auto|]. split; [apply nodupn_NoDup; auto|].
+    split; [|split].
+    + intros q Hq. rewrite forallb_forall in Hb. apply str_eqb_eq. auto.
+    + intros p x [Hp Hx] Hdir. rewrite forallb_forall in Hc. specialize (Hc p Hp).
+      rewrite (name_of_getp s p x Hx), Hdir, str_eqb_refl in Hc. simpl in Hc. apply memn_In. exact Hc.
+    + intros Hs j q Hj. rewrite Hs in Hd. simpl in Hd.
+      rewrite (names_from_spec _ _ _ Hd j q Hj). f_equal. lia.
+  - intros m mx rid lp lx m' Hm Hct Hrid Hlp Hlx Hm'. unfold masterb in H10. rewrite forallb_forall in H10.
+    assert (Hin : In m (seq 0 (length (st_parts s)))) by (apply in_seq; pose proof (getp_lt s m mx Hm); lia).
+    specialize (H10 m Hin). rewrite Hm, Hct, str_eqb_refl in H10. simpl in H10.
+    rewrite forallb_forall in H10. specialize (H10 rid Hrid). rewrite Hlp, Hlx, Hm' in H10.
+    apply Nat.eqb_eq. exact H10.
+  - unfold fixedb in H11. destruct (getp s (st_pres s)) as [pp|] eqn:Epp; [|discriminate].
+    apply andb_true_iff in H11 as [H11 Hc]. apply andb_true_iff in H11 as [Ha Hb].
+    split; [|split].
+    + intros pp' Hpp' Hin. rewrite Epp in Hpp'; injection Hpp' as <-. apply mem_str_In in Hin. rewrite Hin in Ha. simpl in Ha.
+      apply has_type_ne. exact Ha.
+    + intros Hin. apply mem_str_In in Hin. rewrite Hin in Hb. simpl in Hb. apply has_type_ne. exact Hb.
+    + intros pp' p Hpp' Hnm. rewrite Epp in Hpp'; injection Hpp' as <-. rewrite Hnm in Hc.
+      destruct (part_with_reltype rt_notes_master (pt_rels pp)) as [q|]; [|discriminate].
+      apply Nat.eqb_eq in Hc. subst. reflexivity.
+Qed.
+
+Lemma in_table_In tbl e c : Opc.in_table tbl e c = true <-> In (e, c) tbl.
+Proof.
+  unfold Opc.in_table. rewrite existsb_exists. split.
+  - intros ([a b] & Hin & H). simpl in H. apply andb_true_iff in H as [H1 H2].
+    apply str_eqb_eq in H1, H2. subst. exact Hin.
+  - intros H. exists (e, c). split; auto. simpl. rewrite !str_eqb_refl. reflexivity.
+Qed.
+
+Theorem tables_okb_sound T : tables_okb T = true -> tables_ok T.
+Proof.
+  unfold tables_okb. intros H.
+  apply andb_true_iff in H as [H H4]. apply andb_true_iff in H as [H H3]. apply andb_true_iff in H as [H1 H2].
+  constructor.
+  - split; cbn.
+    + apply Opc_proofs.nodupb_NoDup. exact H1.
+    + intros kv Hkv. rewrite forallb_forall in H2. apply str_eqb_eq. auto.
+  - intros e c1 c2 Ha Hb Hne. apply in_table_In in Ha, Hb.
+    rewrite forallb_forall in H3. specialize (H3 _ Ha). rewrite forallb_forall in H3. specialize (H3 _ Hb).
+    cbn [fst snd] in H3. rewrite str_eqb_refl in H3. simpl in H3.
+    apply orb_true_iff in H3 as [H3|H3]; apply str_eqb_eq in H3; [contradiction|exact H3].
+  - intros c Hc. rewrite forallb_forall in H4. specialize (H4 c Hc). apply negb_true_iff in H4. exact H4.
+Qed.
